@@ -503,7 +503,10 @@ def run_property(prop: str, tier: str, seed: int) -> int:
             elif isinstance(v, dict):
                 d = extra.setdefault(k, {})
                 for kk, vv in v.items():
-                    d[kk] = d.get(kk, 0) + vv if isinstance(vv, (int, float)) else vv
+                    if kk.startswith("max:"):
+                        d[kk] = max(d.get(kk, vv), vv)
+                    else:
+                        d[kk] = d.get(kk, 0) + vv if isinstance(vv, (int, float)) else vv
             else:
                 extra[k] = v
     per_check: dict[str, int] = collections.Counter()
